@@ -94,6 +94,15 @@ theorem nanosecond_metrics (s : MState) :
   unfold metrics baseLabels
   simp
 
+/-- … and exactly so while the bit pattern stays below 2^53 (offsets and delays up to about 2 ms): the exported
+binary64 value, read as a multiple of 2^-1074, is the `I96F32` pattern times 2^1042, i.e. `bits · 2^-32` ns -/
+theorem nanosecond_value_exact (x : Int) (hp : 0 < x) (hs : x < 9007199254740992) :
+    f64Scaled (fixed32ToF64 x) = x.natAbs * 2 ^ 1042 := by
+  unfold fixed32ToF64 natFixed32ToF64
+  have : ¬ x < 0 := by omega
+  simp only [this, if_false]
+  exact natFixedToF64_exact 32 x.natAbs (by omega) (by unfold P53; omega) (by decide)
+
 theorem unit_is_name_suffix (m : Metric) (u : String) (h : m.unit = some u) :
     fullName m = "statime_" ++ m.name ++ "_" ++ u := by
   unfold fullName; rw [h]
